@@ -183,35 +183,52 @@ func genReflect(out string, root, irefl *pkgFiles) {
 		fail("EnvMap", fmt.Errorf("method not found"))
 		ok = false
 	}
-	// 5. PopulateStructFields: a second field loop assigning m[f.Name]
+	// 5. PopulateStructFields: after the loop that stores fields under their tag names, a loop (of either form) stores them under their Go
+	// names `m[<field>.Name]` — the LAST writer wins, so the Go-name loop must be the last loop that writes into the map
 	envGoNames := false
-	if fd := irefl.fn("PopulateStructFields"); fd != nil {
-		loops := 0
-		for _, s := range fd.Body.List {
-			rs, isRange := s.(*ast.RangeStmt)
-			if !isRange {
+	if fd := irefl.fn("PopulateStructFields"); fd != nil && fd.Type.Params != nil && len(fd.Type.Params.List) > 0 && len(fd.Type.Params.List[0].Names) > 0 {
+		mapName := fd.Type.Params.List[0].Names[0].Name
+		loops, lastGoName, anyGoName := 0, false, false
+		for _, st := range fd.Body.List {
+			var body *ast.BlockStmt
+			switch x := st.(type) {
+			case *ast.RangeStmt:
+				body = x.Body
+			case *ast.ForStmt:
+				body = x.Body
+			}
+			if body == nil {
 				continue
 			}
-			loops++
-			if loops == 2 {
-				assigns := false
-				ast.Inspect(rs.Body, func(n ast.Node) bool {
-					if as, isAs := n.(*ast.AssignStmt); isAs && len(as.Lhs) == 1 && exprString(as.Lhs[0]) == "m[f.Name]" {
-						assigns = true
+			writes, goName := false, false
+			ast.Inspect(body, func(n ast.Node) bool {
+				if as, isAs := n.(*ast.AssignStmt); isAs && len(as.Lhs) == 1 {
+					if ie, isIdx := as.Lhs[0].(*ast.IndexExpr); isIdx && exprString(ie.X) == mapName {
+						writes = true
+						if se, isSel := ie.Index.(*ast.SelectorExpr); isSel && se.Sel.Name == "Name" {
+							if _, isId := se.X.(*ast.Ident); isId {
+								goName = true
+							}
+						}
 					}
-					return true
-				})
-				if !assigns {
-					fail("PopulateStructFields", fmt.Errorf("second field loop does not assign m[f.Name]"))
-					ok = false
 				}
-				envGoNames = assigns
+				return true
+			})
+			if writes {
+				loops++
+				lastGoName = goName
+				anyGoName = anyGoName || goName
 			}
 		}
 		if loops == 0 || loops > 2 {
-			fail("PopulateStructFields", fmt.Errorf("%d field loops, expected 1 or 2", loops))
+			fail("PopulateStructFields", fmt.Errorf("%d loops writing into the map, expected 1 or 2", loops))
 			ok = false
 		}
+		if anyGoName && !lastGoName {
+			fail("PopulateStructFields", fmt.Errorf("the Go-name loop is not the last writer"))
+			ok = false
+		}
+		envGoNames = loops == 2 && lastGoName
 	} else {
 		fail("PopulateStructFields", fmt.Errorf("function not found"))
 		ok = false
@@ -804,9 +821,26 @@ func genParseFacts(repo, out string, root *pkgFiles) {
 		if fd := ip.fn("ParseTemplateBytes"); fd != nil {
 			for _, st := range fd.Body.List {
 				if is, ok := st.(*ast.IfStmt); ok && is.Init == nil {
-					// the first `if` whose body parses a whole document
-					if containsCall(is.Body, "html.Parse") {
+					// the first `if` whose body — or a helper it delegates to — parses a whole document; the rule is reported by its MEANING
+					// ("the input contains the literal L"), the input being the function's first parameter whatever it is called
+					parses := containsCall(is.Body, "html.Parse")
+					if !parses {
+						ast.Inspect(is.Body, func(n ast.Node) bool {
+							if ce, ok := n.(*ast.CallExpr); ok {
+								if id, ok := ce.Fun.(*ast.Ident); ok {
+									if h := ip.fn(id.Name); h != nil && containsCall(h.Body, "html.Parse") {
+										parses = true
+									}
+								}
+							}
+							return true
+						})
+					}
+					if parses {
 						rule = types.ExprString(is.Cond)
+						if subj, lit, pos, ok := containsCanon(is.Cond); ok && pos && fd.Type.Params != nil && len(fd.Type.Params.List) > 0 && len(fd.Type.Params.List[0].Names) > 0 && subj == fd.Type.Params.List[0].Names[0].Name {
+							rule = "contains(input, " + lit + ")"
+						}
 						break
 					}
 				}
@@ -837,6 +871,33 @@ func genParseFacts(repo, out string, root *pkgFiles) {
 					}
 				}
 			case *ast.CallExpr:
+				// a store made by a helper method of the same type: its key, with the helper's parameters replaced by this call's arguments
+				if sel, ok := x.Fun.(*ast.SelectorExpr); ok {
+					if h := root.method("ExprEvaluator", sel.Sel.Name); h != nil && h != fd && h.Type.Params != nil {
+						var hp []string
+						for _, f := range h.Type.Params.List {
+							for _, nm := range f.Names {
+								hp = append(hp, nm.Name)
+							}
+						}
+						ast.Inspect(h.Body, func(m ast.Node) bool {
+							if as, ok := m.(*ast.AssignStmt); ok {
+								for _, l := range as.Lhs {
+									if ix, ok := l.(*ast.IndexExpr); ok && strings.HasSuffix(exprString(ix.X), ".programs") {
+										k := exprString(ix.Index)
+										for i, pn := range hp {
+											if k == pn && i < len(x.Args) {
+												k = exprString(x.Args[i])
+											}
+										}
+										keys = append(keys, k)
+									}
+								}
+							}
+							return true
+						})
+					}
+				}
 				if exprString(x.Fun) == "expr.Compile" {
 					seen := map[string]bool{}
 					for _, a := range x.Args {
@@ -1070,8 +1131,18 @@ func writeErrorReturned(body *ast.BlockStmt, match func(*ast.CallExpr) bool) (fo
 				}
 			case *ast.ForStmt:
 				walk(x.Body.List)
+			case *ast.RangeStmt:
+				walk(x.Body.List)
 			case *ast.BlockStmt:
 				walk(x.List)
+			case *ast.SwitchStmt:
+				walk(x.Body.List)
+			case *ast.TypeSwitchStmt:
+				walk(x.Body.List)
+			case *ast.CaseClause:
+				walk(x.Body)
+			case *ast.LabeledStmt:
+				walk([]ast.Stmt{x.Stmt})
 			}
 		}
 	}
